@@ -767,9 +767,9 @@ func (s *State) applyFunction(name string, fn object.Object, args []object.Objec
 	oldOut := s.Out
 	buf := bytes.Buffer{}
 	s.Out = &buf
-	// This is 0 as the env is new, but... we just want to make sure there is
-	// no get() up stack to confirm the function might be cacheable.
-	before := s.env.GetMisses()
+	// The env is new: the misses made while binding the parameters (extendFunctionEnv) count too,
+	// we want to make sure there is no get() up stack to confirm the function might be cacheable.
+	before := int64(0)
 	res := s.Eval(newBody) // Need to have the return value unwrapped. Fixes bug #46, also need to count recursion.
 	after := s.env.GetMisses()
 	cantCache := s.env.CantCache()
@@ -858,6 +858,11 @@ func (s *State) extendFunctionEnv(
 			}
 		}
 		if needVariable {
+			if object.Constant(param.Value().Literal()) {
+				// Binding a constant (all caps) parameter depends on whether an outer constant of that name
+				// exists, now or later (CreateOrSet refuses to change it): not a pure function of the arguments.
+				env.TriggerNoCache()
+			}
 			oerr := env.CreateOrSet(param.Value().Literal(), pval, true)
 			if log.LogVerbose() {
 				log.LogVf("set %s to %s - %s", param.Value().Literal(), args[paramIdx].Inspect(), oerr.Inspect())
